@@ -195,6 +195,8 @@ def session_replay(run, path):
     import json, os, subprocess
     rc = json.load(open(path))
     run.build_harness()
+    if rc.get("fam") == "C19.unmarshal":
+        return adapter_replay(run, path)
     if rc.get("fam") != "session":
         p = subprocess.run([run.harness, "replay-one", path], env=run.env)
         if p.returncode == 1:
@@ -458,7 +460,10 @@ def c19(run, tier):
     cfg = run.cfg("MC_Unmarshal.cfg", {}, "gen.cfg")
     rep = run.tlc_gen_replay("MC_Unmarshal", cfg, "calls", timeout=600)
     run.absorb(rep, VALUE_ASPECTS)
-    # sub-queries of field tags from every start node are also covered by C18; sessions mix Exec and Unmarshal in C13
+    # code -> spec: sessions that mix Exec, re-slicing and Unmarshal with randomly built target types (reflect) on random
+    # documents; every Unmarshal event is judged by Trace_Xsel with Unmarshal.tla (filled value or demanded error, frame condition)
+    for i in range(Q(tier, 2, 6)):
+        run.trace_validate(["-n", str(Q(tier, 3000, 15000)), "-sub", str(50 + i)], "unmarshal-sessions%d" % i, frame_aspect=True, record_cmd="session-record")
 
 
 def c20(run, tier):
@@ -651,7 +656,7 @@ PROPS = {
             "exhaustive": {"quick": True, "thorough": True},
             "assumptions": BASE_ASSUME + ["8-bit encodings are exercised only on code points where IANA and WHATWG tables agree (0x00-0x7F, 0xA0-0xFF); other characters are written as character references",
                                           "CR and attribute-value TAB/LF are generated only as character references (normalisation is the decoder's business)"]},
-    "C19": {"run": c19, "replay": adapter_replay,
+    "C19": {"run": c19, "replay": session_replay,
             "rule": "TLC enumerates 35 target types (structs with string/bool/int*/uint*/float fields, pointer and pointer-to-pointer fields, slice fields of primitives / pointers / structs, nested structs by value and by pointer, "
             "untagged fields, an unexported tagged field, map/array/chan/interface/func fields, multi-dimensional slices; slice targets of primitives, pointers, structs; bare primitives and unsupported kinds) x 4 ways of passing the target "
             "(pointer, non-pointer, nil pointer, nil) x 7 query results (one node, two nodes, empty, many, number, string, boolean) = 980 calls; Laws (only a non-nil pointer to a struct/slice can succeed; a struct needs exactly one node; "
